@@ -625,6 +625,21 @@ class Interp:
             return a0
         if name == "get_context" and len(args) == 1:
             return Tok("task-context")
+        # `vec![a, b]` on this toolchain: Box::new_uninit(), the array written through the box, box_assume_init_into_vec_unsafe(box)
+        if name == "new_uninit" and "boxed::Box" in path + full and not args:
+            nm = "box#%d" % (len(self.heap) + 1)
+            self.heap[nm] = TOP
+            return ("ref", ("H", nm, ()))
+        if name == "box_assume_init_into_vec_unsafe" and len(args) == 1:
+            v = self.deref_val(args[0])
+            for _ in range(6):
+                if v is not None and v[0] == "seq":
+                    return ("seq", "vec", list(v[2]))
+                if v is not None and v[0] == "adt" and len(v[3]) == 1:
+                    v = list(v[3].values())[0]
+                    continue
+                break
+            raise Unsupported("vec! whose elements were not written through the box at %s" % site)
         if name == "poll" and len(args) == 2 and "Future" in path + full:
             fut = d0
             if fut is not None and fut[0] == "closure" and fut[1] in self.f.bodies and self.f.bodies[fut[1]].rec.get("closure_kind") == "coroutine":
